@@ -14,32 +14,19 @@ func atoi4(s string) int {
 	return v
 }
 
-func atof3(s string) float64 {
-	v := float64((s[1]-'0'))*0.1 +
-		float64((s[2]-'0'))*0.01 +
-		float64((s[3]-'0'))*0.001
-	return v
-}
-
-func atof6(s string) float64 {
-	v := float64((s[1]-'0'))*0.1 +
-		float64((s[2]-'0'))*0.01 +
-		float64((s[3]-'0'))*0.001 +
-		float64((s[4]-'0'))*0.0001 +
-		float64((s[5]-'0'))*0.00001 +
-		float64((s[6]-'0'))*0.000001
-	return v
-}
-
-func atof9(s string) float64 {
-	v := float64((s[1]-'0'))*0.1 +
-		float64((s[2]-'0'))*0.01 +
-		float64((s[3]-'0'))*0.001 +
-		float64((s[4]-'0'))*0.0001 +
-		float64((s[5]-'0'))*0.00001 +
-		float64((s[6]-'0'))*0.000001 +
-		float64((s[7]-'0'))*0.0000001 +
-		float64((s[8]-'0'))*0.00000001 +
-		float64((s[9]-'0'))*0.000000001
-	return v
+// atonsec converts a fraction of seconds such as ".866915" to nanoseconds.
+//
+// Integer arithmetic only: scaling through float64 is off by one nanosecond for many 6- and 9-digit fractions.
+// Digits beyond the ninth are ignored. Returns false if there is no digit after the dot.
+func atonsec(s string) (int, bool) {
+	if len(s) < 2 {
+		return 0, false
+	}
+	nsec := 0
+	scale := 100000000
+	for i := 1; i < len(s) && i <= 9; i++ {
+		nsec += int(s[i]-'0') * scale
+		scale /= 10
+	}
+	return nsec, true
 }
